@@ -6,6 +6,7 @@ import (
 	"fmt"
 	"os"
 	"runtime"
+	"strings"
 	"testing"
 	"time"
 
@@ -592,6 +593,10 @@ func genPipeDoc(r *Run, nd bool) (doc []byte, desc string) {
 		}
 		d.B = doc
 	}
+	if nd && c.Intn("newlineruns", 8) == 0 {
+		doc, desc = genNewlineRuns(c)
+		return
+	}
 	if !nd && c.Intn("emptybuffer", 14) == 0 {
 		// dense structurals, then a long token holding no structural: a later index buffer comes up empty
 		n := 8300 + c.Intn("ebprefix", 40000)
@@ -640,6 +645,38 @@ func genPipeDoc(r *Run, nd bool) (doc []byte, desc string) {
 		desc += fmt.Sprintf(" defect=%s@%d", defNames[kind], pos)
 	}
 	return
+}
+
+// genNewlineRuns draws an NDJSON input whose documents are separated by runs of line feeds - in that mode every line
+// feed is a structural of its own, so long runs fill whole index buffers and buffer boundaries fall inside them - and
+// whose last line may be cut short (stage 1 then rejects its final buffer while stage 2 is among the blank lines).
+func genNewlineRuns(c *Chooser) ([]byte, string) {
+	var b bytes.Buffer
+	lines := 2 + c.Intn("nrlines", 40)
+	total := 0
+	for i := 0; i < lines; i++ {
+		b.WriteString([]string{"[]", "{}", "[[]]", "[1,2]", `{"a":1}`, `["x"]`}[c.Intn("nrdoc", 6)])
+		run := 1
+		switch c.Intn("nrrun", 5) {
+		case 0:
+			run = 1 + c.Intn("nrshort", 4)
+		case 1:
+			run = 1400 + c.Intn("nrbuf", 20) // about one index buffer
+		case 2:
+			run = 60 + c.Intn("nrblock", 10) // about one 64-byte block
+		case 3:
+			run = 1 + c.Intn("nrlong", 12000)
+		}
+		total += run
+		if c.Intn("nrcrlf", 6) == 0 {
+			b.WriteString(strings.Repeat("\r\n", run))
+		} else {
+			b.WriteString(strings.Repeat("\n", run))
+		}
+	}
+	tail := []string{"", "", "[", `{"a":1`, `"`, `["x`, "[]", "{"}[c.Intn("nrtail", 8)]
+	b.WriteString(tail)
+	return append([]byte(nil), b.Bytes()...), fmt.Sprintf("nd newline-runs lines=%d linefeeds=%d tail=%q size=%d", lines, total, tail, b.Len())
 }
 
 // judgeOutcome compares one outcome with the reference verdict; full selects the complete battery.
